@@ -18,20 +18,20 @@ var T *testing.T
 
 // ReplayFile is the on-disk form of a failing (minimised) execution.
 type ReplayFile struct {
-	Property string     `json:"property"`
-	Scenario string     `json:"scenario"`
-	Seed     uint64     `json:"seed"`
-	Run      int        `json:"run"`
-	Oracle   string     `json:"oracle"`
-	Key      string     `json:"key"`
-	Msg      string     `json:"msg"`
-	SchedMode string    `json:"sched_mode"` // "uniform" (also when absent) or "priority"
-	Tape     []Decision `json:"tape"`
-	Trace    []string   `json:"trace"`
-	Faults   map[string]int `json:"faults"`
-	Minimised bool      `json:"minimised"`
-	OrigLen  int        `json:"original_tape_len"`
-	Tree     string     `json:"tree"`
+	Property  string         `json:"property"`
+	Scenario  string         `json:"scenario"`
+	Seed      uint64         `json:"seed"`
+	Run       int            `json:"run"`
+	Oracle    string         `json:"oracle"`
+	Key       string         `json:"key"`
+	Msg       string         `json:"msg"`
+	SchedMode string         `json:"sched_mode"` // "uniform" (also when absent) or "priority"
+	Tape      []Decision     `json:"tape"`
+	Trace     []string       `json:"trace"`
+	Faults    map[string]int `json:"faults"`
+	Minimised bool           `json:"minimised"`
+	OrigLen   int            `json:"original_tape_len"`
+	Tree      string         `json:"tree"`
 }
 
 func envInt(name string, def int) int {
